@@ -139,6 +139,8 @@ var c02Dangerous = []string{
 	"javascript:alert(1)", "JaVaScRiPt:alert(1)", "java\tscript:alert(1)", "java\nscript:x", "java\rscript:x", " javascript:x", "\x01javascript:x",
 	"\x1fjavascript:x", "javascript\t:x", "javascript&colon;x", "javascript&#58;x", "&#106;avascript:x", "javascript&#x3a;x", "jav&#x09;ascript:x",
 	"jav&Tab;ascript:x", "\tjavascript:x", " javascript:x", "javascript:x//", "\x00javascript:x", "javascript\x00:x",
+	// srcset shapes: every ASCII whitespace / comma / descriptor position around a javascript: candidate
+	"/a,\fjavascript:x", "/a \tjavascript:x", "/a 1x,javascript:x", "javascript:x 1x", "/a\f1x,javascript:x", "/a\rjavascript:x", ",javascript:x", "/a ,\njavascript:x 2x",
 }
 
 // compositions: how the payload parts reach the attribute value. %P = static prefix, parts go to slots (§) or to the ranged list.
@@ -384,7 +386,11 @@ func checkC02(r *core.Run) {
 		if j.el == "link" {
 			cls = "link"
 		}
-		run(prog, j.comp.nparts, j.comp.rng, j.comp.c, j.comp.w, c02Root[j.comp.name]+":"+cls)
+		discr := c02Root[j.comp.name] + ":" + cls
+		if c02Root[j.comp.name] != "multiple-dynamic-parts" {
+			discr += ":prefix=" + j.pre // the static prefix matters for what a single dynamic part may do
+		}
+		run(prog, j.comp.nparts, j.comp.rng, j.comp.c, j.comp.w, discr)
 	})
 	for _, sp := range special {
 		if sp.parts != nil {
